@@ -1,4 +1,5 @@
 import GoSup.Proofs.CompLts
+import GoSup.Proofs.CompLts2
 /-!
 # C09 / C11 / C18 — the composite under every interleaving of `Run`, `Reload()`, `Stop()`, cancellation and child events
 
@@ -49,6 +50,40 @@ theorem c11_restart_stops_first {b : List Nat} {s : St} (h : Reach lts (init b) 
   | false =>
     have := hinv.g.oneLive i g hi hc
     rw [hl] at this; cases this
+
+/-- **While Running with no reload in progress, exactly the configured children have been started** (C09, first
+clause) — in every interleaving: whenever `Run` is waiting in its `select` and no `Reload()` is under way, the children
+launched in the one live generation are, by the code's own membership criterion (`hasMembershipChanged = false`: same
+number, every configured identity among them), the children of the configuration in force, each launched once; every
+other generation has been cancelled.  (For configurations that name an identity twice the criterion is weaker than
+equality: finding C11-F1.) -/
+theorem c09_running_is_configured {b : List Nat} {s : St} (h : Reach lts (init b) s) (hrun : s.run = .select)
+    (hrl : s.rl = .idle) :
+    ∃ c, s.cfg = some c ∧ GoSup.CompSeq.changed (liveNames s) (GoSup.CompSeq.names c) = false
+      ∧ (liveNames s).length = (GoSup.CompSeq.names c).length ∧ (∀ x ∈ GoSup.CompSeq.names c, x ∈ liveNames s)
+      ∧ ∀ i g, s.gens[i]? = some g → s.live ≠ some i → g.cancelled = true := by
+  obtain ⟨hi, h2⟩ := inv12_reach h
+  obtain ⟨c, h1, hch⟩ := h2.conf (by simp [runEarly, hrun]) (by simp [rlCalm, hrl])
+  have := (changed_false_iff _ _).mp hch
+  refine ⟨c, h1, hch, this.1, this.2, ?_⟩
+  intro i g hg hne
+  cases hc : g.cancelled with
+  | true => rfl
+  | false => exact absurd (hi.g.oneLive i g hg hc) hne
+
+/-- **A composite fails only for a child that failed** (C10, last clause): `Run()` returns `ErrRunnableFailed` naming
+child `c` only if a `Run` of `c` really returned a non-cancellation error; children that exit with nil or a
+cancellation error never enter `serverErrors`. -/
+theorem c10_failed_is_real {b : List Nat} {s : St} (h : Reach lts (init b) s) {c : Nat}
+    (hr : s.run = .returned (.failed c)) : ExitedErr s c :=
+  (inv12_reach h).2.failing c (Or.inr (Or.inr hr))
+
+/-- **A reported failure is taken** (C10): while `Run` waits in its `select` a pending child error enables the failure
+arm, which moves the composite to Error and on to stopping every child, whichever child and whenever (also children
+added by earlier reloads: `errs` does not care about generations). -/
+theorem c10_failure_taken (s : St) (c : Nat) (rest : List Nat) (hrun : s.run = .select) (herr : s.errs = c :: rest) :
+    step s .runSelErr = some { s with errs := rest, fsm := .error, run := .failToStop c } := by
+  simp [step, hrun, herr]
 
 /-! ## finding C09-F1 inside the model: `Stop()` overlapping a restart reload deadlocks with bundled-style children -/
 
